@@ -1,0 +1,33 @@
+//go:build verif
+
+package metrics
+
+// Machine-checked contracts for /verif (govc). Comment-only: compiled only with -tags verif, adds no code.
+
+// C04: every request to this server passes the authentication middleware before any handler: the middleware asks
+// the authentication manager for exactly this server's action with the client's own credentials and address
+// (the address is taken from forwarding headers only for configured trusted proxies), and a rejected request is
+// aborted with 401; both middlewares are installed before any route is registered.
+
+//@ func (m *Metrics) middlewareAuth
+//@   property C04
+//@   safety -all
+//@   assert-call Credentials: h == ctx.Request
+//@   assert-call ClientIP: c == caller_ctx
+//@   assert-call ParseIP: s == resultof(ClientIP)
+//@   assert-call Authenticate: req.Action == conf.AuthActionMetrics && req.Credentials == resultof(Credentials) && req.IP == resultof(ParseIP) && called(Credentials) == 1 && called(ClientIP) == 1
+//@   assert-call AbortWithStatusJSON: code == 401 && c == caller_ctx && called(Authenticate) == 1 && resultof(Authenticate, 1) != nil
+//@   ensures [asked-exactly-once] called(Authenticate) == 1
+//@   ensures [rejected-is-401-and-aborted] resultof(Authenticate, 1) != nil ==> called(AbortWithStatusJSON) == 1
+//@   ensures [admitted-passes-untouched] resultof(Authenticate, 1) == nil ==> called(AbortWithStatusJSON) == 0
+
+//@ func (m *Metrics) Initialize
+//@   property C04
+//@   safety -all
+//@   assert-call ToTrustedProxies: true
+//@   assert-call SetTrustedProxies: trustedProxies == resultof(ToTrustedProxies) && called(Use) == 0
+//@   assert-call Use: called(SetTrustedProxies) == 1 && called(GET) == 0 && called(Group) == 0
+//@   assert-call GET: called(Use) == 2
+//@   assert-call Group: called(Use) == 2
+//@   ensures [client-address-not-taken-from-untrusted-headers] result == nil ==> called(SetTrustedProxies) == 1
+//@   ensures [auth-middleware-precedes-every-route] result == nil ==> called(Use) == 2
